@@ -147,7 +147,7 @@ Step(e) ==
       [] e.a = "ConvReset"     -> Budget /\ (\E p \in AnyP : ConvReset(e.convs[1], p)) /\ Spend
       [] e.a = "ConvRemove"    -> Budget /\ (\E p \in AnyP : ConvRemove(e.convs[1], p)) /\ Spend
       [] e.a = "ConvAdd"       -> Budget /\ ConvAdd(e.convs[1]) /\ Spend
-      [] e.a = "ViewConvert"   -> Budget /\ ViewConvert(e.v, e.k, e.convs[1]) /\ Spend
+      [] e.a = "ViewConvert"   -> Budget /\ (\E p \in AnyP : ViewConvert(e.v, e.k, e.convs[1], p)) /\ Spend
 
 MCInit == Init /\ clock = 0 /\ calls = 0 /\ lost = {} /\ fkey = <<>> /\ epoch = 0
 MCNext == \E e \in JobEvents \cup ApiEvents : Step(e)
